@@ -408,6 +408,10 @@ class TD3(RLAlgorithm):
         :param policy_noise: Standard deviation of noise applied to policy, defaults to 0.2
         :type policy_noise: float, optional
         """
+        if hasattr(experiences, "keys"):  # TensorDict handed out by ReplayBuffer / Sampler
+            experiences = tuple(
+                experiences[k] for k in ("obs", "action", "reward", "next_obs", "done")
+            )
         states, actions, rewards, next_states, dones = experiences
 
         actions = actions.to(self.device)
